@@ -186,6 +186,21 @@ func scramble(t *refterm.Terminal, r gen.R) {
 
 func genFrame(r gen.R, cols, rows int, m widthtab.Method, allowResize bool) frame {
 	var f frame
+	if r.Intn(5) == 0 {
+		// a frame in which nothing but the cursor moves, inside a small
+		// corner so that consecutive frames often share a row or a column
+		// (and the new column often equals the old row)
+		c, rw := 3, 2
+		if cols < c {
+			c = cols
+		}
+		if rows < rw {
+			rw = rows
+		}
+		f.Ops = []op{{Op: "showcursor", Col: r.Intn(c), Row: r.Intn(rw)}}
+		f.End = "render"
+		return f
+	}
 	nops := r.Intn(12)
 	if r.Intn(4) == 0 {
 		nops = r.Intn(41)
